@@ -170,11 +170,11 @@ class NeutronData(object):
         return m - q * self.me
 
     def natural_mass(self, key):
-        """mass of the natural element for a NEUTRAL atom (ions are not in the natural_density alphabet)."""
+        """mass of the atom with its isotope replaced by the element in natural abundance; the charge stays
+        (docstring of natural_density: "naturally occurring isotopes and no change in cell volume" - the electrons
+        that an ion lacks or carries do not depend on the isotope): natural element mass - charge * electron mass."""
         sym, a, q = key
-        if q != 0:
-            raise MachineryError("natural mass of an ion is not defined by the property")
-        return self.el_mass[self.z_of_sym[sym]]
+        return self.el_mass[self.z_of_sym[sym]] - q * self.me
 
     def atom_density(self, key):
         """element density; isotope: same number density as the natural element."""
